@@ -395,6 +395,32 @@ function placementCases() {
   return out
 }
 
+/**
+ * local-name walk: the generator numbers its locals a…z, A…Z, a0, b0 … per function scope; k bare sibling elements in front of a
+ * body shift every local of the body by k names, so k = 0 … n walks each local of the body through every name of the sequence
+ * (a helper parameter or a fixed identifier of the generated code that coincides with one of them is then read instead of it).
+ * Bodies: constructs whose generated code nests a helper function around a reference to a loop local.
+ */
+function localWalkCases(maxPad, step) {
+  const out = []
+  const item = id('item')
+  const a = id('a')
+  const LISTE = E(id('list'))
+  const bodies = [
+    ['for:object-spread+item-field', () => [el('v', [A.plain('p', E(M.mem(M.mem(M.obj([{ spread: a }, { key: 'k', value: item }]), 'k'), 'v'))), A.plain('q', E(M.mem(M.obj([{ spread: a }, { key: 'k', value: item }]), 'b')))], [], { wxFor: { list: LISTE } })]],
+    ['for:template-data-spread+item', () => [tdef('t', [text(E(M.mem(id('v'), 'v')), '/', E(id('b')))]), block([tis('t', M.obj([{ spread: a }, { key: 'v', value: item }]))], { wxFor: { list: LISTE } })]],
+    ['for:array-spread+item', () => [el('v', [A.plain('p', E(M.mem(M.idx(M.arr([{ spread: M.arr([item]) }, id('x')]), M.lit('0')), 'v'))), A.plain('q', E(M.mem(M.arr([{ spread: id('list') }, item]), 'length')))], [], { wxFor: { list: LISTE } })]],
+    ['for:nested-for-spread-of-outer-item', () => [block([el('v', [A.plain('p', E(M.mem(M.obj([{ spread: item }, { key: 'k', value: id('j') }]), 'v'))), A.plain('q', E(M.mem(M.obj([{ spread: a }, { key: 'k', value: id('j') }]), 'k')))], [text(E(id('j')), E(id('x')))], { wxFor: { list: E(M.arr([M.lit('1'), id('y')])), item: 'j', index: 'i' } })], { wxFor: { list: LISTE } })]],
+    ['for:cond-member-of-item', () => [el('v', [A.plain('p', E(M.mem(M.grp(M.cond(id('c'), item, a)), 'v'))), A.model('val', E(M.mem(item, 'v')))], [text(E(id('index')))], { wxFor: { list: LISTE, key: 'id' } })]],
+  ]
+  for (const [bn, bf] of bodies) for (let k = 0; k <= maxPad; k += step) {
+    const pads = []
+    for (let i = 0; i < k; i++) pads.push(el('e', [], []))
+    out.push({ name: `local-walk:${bn}:pad${k}`, main: [...pads, ...bf()], files: {}, scripts: {}, walk: true })
+  }
+  return out
+}
+
 // ---------------------------------------------------------------------------------------------
 // data environments
 
@@ -507,4 +533,4 @@ function corpus(deep) {
   return out
 }
 
-module.exports = { placementCases, exprForms, bindingPositions, leafKinds, elementKinds, wrappable, controlKinds, multiFileKinds, corpus, environments, collectNames, VALUES, FNS }
+module.exports = { localWalkCases, placementCases, exprForms, bindingPositions, leafKinds, elementKinds, wrappable, controlKinds, multiFileKinds, corpus, environments, collectNames, VALUES, FNS }
